@@ -168,7 +168,7 @@ def gen_lit(rng):
     parts = []
     for _ in range(rng.randint(0, 5)):
         x = rng.random()
-        if x < 0.4: parts.append(rng.choice(["a", "b", "x", ":", "-", "<", ">", " "]))
+        if x < 0.4: parts.append(rng.choice(["a", "b", "x", ":", "-", "<", ">", " ", "$1", "$$", "&"]))
         elif x < 0.8: parts.append("\\" + rng.choice("0123129"))
         elif x < 0.86: parts.append("\\1" + rng.choice(["5", "01", "x"]))          # \15 is \1 then 5 ; \101 is octal A
         elif x < 0.92: parts.append(rng.choice(["\\t", "\\\\", "\\.", "\\x41"]))
@@ -251,7 +251,9 @@ def run_part(ctx, bad, mlr_rows, P):
         pat = show(t)
         form = miller_form(rng, pat, ci)
         s = gen_subject(rng)
-        rep = rng.choice([b"X", b"", b"<\\1>", b"[\\0]", b"\\2\\1", b"\\1\\15\\9", b"a\\\\1", b"\\", b"-\\3-", b"\xe2\x82\xac\\1"])
+        rep = rng.choice([b"X", b"", b"<\\1>", b"[\\0]", b"\\2\\1", b"\\1\\15\\9", b"a\\\\1", b"\\", b"-\\3-", b"\xe2\x82\xac\\1",
+                          # characters that are special in OTHER replacement syntaxes (Go Expand, sed, printf) are plain text here
+                          b"$1", b"a$$b", b"${1}x", b"$0|$name", b"<&>", b"&", b"%s%d", b"$1\\1"])
         if b"@" in form + s + rep or b"\t" in form + s + rep:
             continue
         rows.append((t, ng, ci, form, s, rep))
